@@ -143,6 +143,42 @@ def _multiset(A, B):
 STR_POOL = ["a", "b", "c10", "c9", "node 5"]
 
 
+@harness("C10.reuse", raises_are_violations=True)
+def reuse(ctx, p):
+    """Converting INTO a re-used network instance (create_using=<instance>) gives
+    the same network as converting into a fresh one, whatever the instance held."""
+    s1 = (p["shape"][0], p["shape"][1], tuple(tuple(e) for e in p["shape"][2]))
+    s2 = (p["shape2"][0], p["shape2"][1], tuple(tuple(e) for e in p["shape2"][2]))
+    src = nets.build_H(ctx, s1, attrs=True)[0]
+    T = nets.build_H(ctx, s2, attrs=True, tag="b")[0]
+    how = p["how"]
+    ctx.info["op"] = "create_using:" + how
+    with warnings.catch_warnings():
+        warnings.simplefilter("ignore")
+        if how == "hyperedge_dict":
+            d = xgi.to_hyperedge_dict(src)
+            fresh = xgi.from_hyperedge_dict(d)
+            R = xgi.from_hyperedge_dict(d, create_using=T)
+        elif how == "hyperedge_list":
+            d = xgi.to_hyperedge_list(src)
+            if d and len(d[0]) == 0:
+                ctx.assume(False)
+            fresh = xgi.from_hyperedge_list(d)
+            R = xgi.from_hyperedge_list(d, create_using=T)
+        else:
+            fresh = xgi.to_hypergraph(src)
+            R = xgi.to_hypergraph(src, create_using=T)
+            R = T if R is None else R
+    a, b = nets.snap(R), nets.snap(fresh)
+    if how == "hyperedge_list":
+        # the list carries no edge labels (a re-used instance keeps its id counter): compare in order
+        ctx.require(nets.same(a["nodes"], b["nodes"]) and nets.same([a["members"][e] for e in a["edges"]], [b["members"][e] for e in b["edges"]]),
+                    "converting into a re-used instance differs from converting into a fresh one")
+    else:
+        a.pop("net_attr"), b.pop("net_attr")
+        ctx.require(nets.same(a, b), "converting into a re-used instance differs from converting into a fresh one")
+
+
 @harness("C10.strings", raises_are_violations=True)
 def strings(ctx, p):
     """String labels (every injective assignment from a pool, string edge ids):
@@ -168,6 +204,23 @@ def strings(ctx, p):
             R = xgi.from_hypergraph_dict(xgi.to_hypergraph_dict(H))
         elif how == "hif_dict":
             R = xgi.from_hif_dict(xgi.to_hif_dict(H))
+        elif how == "incidence_mixed":
+            # numbers and strings mixed among the node labels and among the edge ids
+            mixed_nodes = [nl[i] if i % 2 == 0 else 10 * i + 1 for i in range(N)]
+            mixed_edges = [el[j] if j % 2 == 0 else j for j in range(M)]
+            H = xgi.Hypergraph()
+            H.add_nodes_from(mixed_nodes)
+            for j in range(M):
+                H.add_edge([mixed_nodes[i] for i in edges[j]], idx=mixed_edges[j])
+            I, nmap, emap = xgi.to_incidence_matrix(H, sparse=False, index=True)
+            if I.size == 0:
+                ctx.assume(False)
+            R = xgi.from_incidence_matrix(I, nodelabels=[nmap[i] for i in range(len(nmap))], edgelabels=[emap[j] for j in range(len(emap))])
+            want = {e: set(m) for e, m in H._edge.items() if m}
+            got = {e: set(m) for e, m in R._edge.items()}
+            ctx.require(got == want and all(type(k) is type(w) for k, w in zip(sorted(got, key=str), sorted(want, key=str))), "labelled incidence matrix round trip changes labels of mixed type")
+            ctx.require(all(any(n == m and type(n) is type(m) for m in H._node) for n in R._node), "labelled incidence matrix round trip changes the type of a node label")
+            return
         elif how == "collision":
             H.add_node(7)
             H.add_node("7")
@@ -283,8 +336,13 @@ def spec(tier, seed):
                 units.append(("C10.cross", {"cls": cls, "shape": s, "how": how, "attrs": False}))
                 units.append(("C10.cross", {"cls": cls, "shape": s, "how": how, "form": "function"}))
     for s in shapes.shapes_H(2, 2) + shapes.shapes_H(3, 1):
-        for how in ("hypergraph_dict", "hif_dict", "collision"):
+        for how in ("hypergraph_dict", "hif_dict", "collision", "incidence_mixed"):
             units.append(("C10.strings", {"cls": "H", "shape": s, "how": how}))
+    small = shapes.shapes_H_upto(2, 1) + shapes.shapes_H(0, 2) + shapes.shapes_H(1, 2)[:2]
+    for s in shapes.shapes_H_upto(2, 2):
+        for s2 in small:
+            for how in ("hyperedge_dict", "hyperedge_list", "to_hypergraph"):
+                units.append(("C10.reuse", {"cls": "H", "shape": s, "shape2": s2, "how": how}))
     for s in bip:
         nv = s[0] + s[1]
         nlinks = sum(len(e) for e in s[2])
